@@ -14,6 +14,7 @@
 package fschannel
 
 import (
+	"bytes"
 	"fmt"
 	"os"
 	"time"
@@ -93,31 +94,40 @@ func (f *rotateFile) Write(p []byte) (int, error) {
 	written := 0
 
 	for f.pos+int64(len(p)) > f.maxSize {
-		j := f.maxSize - int64(f.pos)
+		// last line ending that still fits into the current file
+		j := -1
+		if fit := f.maxSize - f.pos; fit > 0 {
+			j = bytes.LastIndexByte(p[:fit], '\n')
+		}
 
-		for ; j > 0; j-- {
-			// line endings windows?
-			if p[j] == '\n' {
+		if j < 0 && f.pos == 0 {
+			// a single line larger than the maximum size gets a file of its own
+			if j = bytes.IndexByte(p, '\n'); j < 0 {
 				break
 			}
 		}
 
-		n, err := f.f.Write(p[:j])
-		if err != nil {
-			return n, err
-		}
+		if j >= 0 {
+			n, err := f.f.Write(p[:j+1])
 
-		written += n
+			written += n
+			f.pos += int64(n)
+
+			if err != nil {
+				return written, err
+			}
+
+			p = p[j+1:]
+
+			if len(p) == 0 {
+				return written, nil
+			}
+		}
 
 		// rotate
 		if err := f.rotate(); err != nil {
 			return written, err
 		}
-
-		// skip \n
-		written += 1
-
-		p = p[j+1:]
 	}
 
 	n, err := f.f.Write(p)
